@@ -338,6 +338,7 @@ def r9(p, rep):
     rep.add("C03.R9", f"{f.qualname}:derivation-after-arity-check", f"{f.module.rel}:{(late[0] if late else derivs[0]).lineno}", ok, f"all {len(derivs)} derivations of `{out_name}` from `{in_name}` run after the arity check passed" if ok else f"`{norm(late[0])[:70]}` derives the output expressions before the number of input expressions was checked: a call with a surplus / missing expression reaches index and assert statements of the derivation (AssertionError / IndexError) instead of the documented SemanticError")
 
 
+
 def run(p, rep, tier):
     r1(p, rep)
     r2(p, rep, tier)
